@@ -37,7 +37,11 @@ def srcAtomic : Bool := Gen.LockUsers.publishByLink
 /-- a state of the acquire that the source has -/
 def src (s : State) : State :=
   { s with abandon := srcAbandon, atomicPublish := srcAtomic, saturating := Gen.LockUsers.ageSaturates,
-           dropChecks := Gen.LockUsers.dropChecksContent }
+           dropChecks := Gen.LockUsers.dropChecksContent, staleNeedsDead := Gen.LockUsers.liveNeverStale,
+           lossyRead := Gen.LockUsers.readsLossily, guarded := Gen.LockUsers.guardedSequences }
+
+/-- one call of `p` in whichever shape the state has -/
+def stepAny (s : State) (p : Nat) : Option State := if s.guarded then gstep s p else step s p
 
 def selfPid : Nat := pidOf 0
 def seqNow : Nat := 1700000000
@@ -101,8 +105,9 @@ def showFileSeq (s : State) : String :=
   | some i =>
     if i == inoOf 0 && s.files i == .pidts selfPid s.now then "SELF:NOW" else "other"
 
-/-- liveness as the harness process sees it: itself, and pid 0 (`kill(0, 0)` = own process group) -/
-def seqAlive (pid : Nat) : Bool := pid == selfPid || pid == 0
+/-- liveness as the harness process sees it: itself, and pid 0 (`kill(0, 0)` = own process group) unless the
+    source excludes pid 0 (`pid != 0 && is_process_running(pid)`) -/
+def seqAlive (pid : Nat) : Bool := pid == selfPid || (pid == 0 && !Gen.LockUsers.liveNeverStale)
 
 def lockseq (debug : Bool) (cell : Option (List UInt8)) : String :=
   let s0 : State :=
@@ -111,10 +116,10 @@ def lockseq (debug : Bool) (cell : Option (List UInt8)) : String :=
     | some bytes => { src (initFile 1 seqNow debug false (if Utf8.valid bytes then parseContent bytes else .invalid)) with
                         alive := seqAlive }
   -- acquire: at most 8 calls
-  let s1 := (List.replicate 8 0).foldl (fun st p => if st.pc p == .holding then st else (step st p).getD st) s0
+  let s1 := (List.replicate 12 0).foldl (fun st p => if st.pc p == .holding then st else (stepAny st p).getD st) s0
   match s1.pc 0 with
   | .holding =>
-    let s2 := runP s1 [0, 0, 0]
+    let s2 := runP s1 [0, 0, 0, 0, 0]
     s!"acquired {showFileSeq s1} {if s2.cell.isNone then "gone" else "present"}"
   | .failed e => s!"{showErrSeq e} {showFileSeq s1} -"
   | .panicked => s!"panic {showFileSeq s1} -"
@@ -129,6 +134,9 @@ structure Spec where
   atomic : Bool := srcAtomic
   saturating : Bool := Gen.LockUsers.ageSaturates
   dropChecks : Bool := Gen.LockUsers.dropChecksContent
+  needsDead : Bool := Gen.LockUsers.liveNeverStale
+  lossy : Bool := Gen.LockUsers.readsLossily
+  guarded : Bool := Gen.LockUsers.guardedSequences
   extra : List Nat := []
 
 def parseSpec (s : String) : Option Spec :=
@@ -148,6 +156,11 @@ def parseSpec (s : String) : Option Spec :=
       else if item == "bycreate" then some { sp with atomic := false }
       else if item == "saturating" then some { sp with saturating := true }
       else if item == "dropchecks" then some { sp with dropChecks := true }
+      else if item == "livefirst" then some { sp with needsDead := true }
+      else if item == "stalefirst" then some { sp with needsDead := false }
+      else if item == "lossy" then some { sp with lossy := true }
+      else if item == "guarded" then some { sp with guarded := true }
+      else if item == "unguarded" then some { sp with guarded := false }
       else match item.toNat? with
         | some n => some { sp with extra := n :: sp.extra }
         | none => none) (some {})
@@ -164,7 +177,8 @@ def splitColonChars (cs : List Char) : List (List Char) :=
 def parseInit (cell : String) (n now : Nat) (sp : Spec) : Option State :=
   let withAlive (s : State) : State :=
     { s with alive := fun pid => s.alive pid || sp.extra.contains pid, abandon := sp.abandon, atomicPublish := sp.atomic,
-             saturating := sp.saturating, dropChecks := sp.dropChecks }
+             saturating := sp.saturating, dropChecks := sp.dropChecks, staleNeedsDead := sp.needsDead,
+             lossyRead := sp.lossy, guarded := sp.guarded }
   match splitColonChars cell.toList with
   | [w] =>
     if w == "absent".toList then some (withAlive (initAbsent n now sp.debug sp.exits))
@@ -209,7 +223,7 @@ def countHolding (s : State) : Nat :=
 def runToks : State → Nat → List Tok → State × Nat
   | s, m, [] => (s, m)
   | s, m, .proc p :: ts =>
-    let s' := (step s p).getD s
+    let s' := (stepAny s p).getD s
     runToks s' (max m (countHolding s')) ts
   | s, m, .tick d :: ts => runToks { s with now := s.now + d } m ts
   | s, m, .prompt p :: ts => runToks (promptExit s p) m ts
@@ -219,7 +233,7 @@ def runToks : State → Nat → List Tok → State × Nat
       | 0, s, m => (s, m)
       | fuel + 1, s, m =>
         let (s', m') := (List.range s.n).foldl (fun (acc : State × Nat) p =>
-          let st := (step acc.1 p).getD acc.1
+          let st := (stepAny acc.1 p).getD acc.1
           (st, max acc.2 (countHolding st))) (s, m)
         go fuel s' m'
     let (s', m') := go 14 s m
@@ -237,6 +251,7 @@ def showErr : Err → String
 
 def showPc : Pc → String
   | .start => "start"
+  | .locked => "locked"
   | .sawPresent => "saw"
   | .opened i => s!"opened:{if i == 0 then "init" else s!"P{i - 1}"}"
   | .readDone _ => "read"
@@ -278,7 +293,8 @@ def showState (now0 : Nat) (s : State) (m : Nat) : String :=
 
 def nextCall (s : State) (p : Nat) : String :=
   match s.pc p with
-  | .start => "exists"
+  | .start => if s.guarded then "flock" else "exists"
+  | .locked => "exists"
   | .sawPresent => "open"
   | .opened _ => "read"
   | .readDone _ => "decide"
@@ -287,7 +303,7 @@ def nextCall (s : State) (p : Nat) : String :=
   | .create _ => "create"
   | .created _ => "write"
   | .holding => "work"
-  | .dropCheck => "dropexists"
+  | .dropCheck => if s.guarded && s.guard != some p then "dropflock" else "dropexists"
   | .dropUnlink => "dropunlink"
   | .done | .failed _ | .panicked => if s.exits && s.alive (pidOf p) then "exit" else "-"
 
@@ -314,7 +330,7 @@ def traceToks : State → Nat → List Tok → List String → State × Nat × L
   | s, m, [], acc => (s, m, acc.reverse)
   | s, m, .proc p :: ts, acc =>
     let kind := if p < s.n then nextCall s p else "-"
-    let s' := (step s p).getD s
+    let s' := (stepAny s p).getD s
     traceToks s' (max m (countHolding s')) ts (s!"{p}:{kind}" :: acc)
   | s, m, .tick d :: ts, acc => traceToks { s with now := s.now + d } m ts (s!"t{d}" :: acc)
   | s, m, .prompt p :: ts, acc => traceToks (promptExit s p) m ts (s!"{p}:promptint" :: acc)
@@ -354,21 +370,21 @@ def running (s : State) (p : Nat) : Bool :=
 
 /-- one scheduling unit of `p`: a call; with `glue`, a `read` drags the decision along -/
 def unit (glue : Bool) (s : State) (p : Nat) : State × List Nat :=
-  let s1 := (step s p).getD s
+  let s1 := (stepAny s p).getD s
   if !glue then (s1, [p])
   else match s.pc p, s1.pc p with
     | .opened _, .readDone _ =>
-      let s2 := (step s1 p).getD s1
+      let s2 := (stepAny s1 p).getD s1
       -- a real process that fails or finishes is gone at once: its exit is part of its last call
-      if (s2.pc p).terminal && s2.exits then ((step s2 p).getD s2, [p, p, p]) else (s2, [p, p])
+      if (s2.pc p).terminal && s2.exits then ((stepAny s2 p).getD s2, [p, p, p]) else (s2, [p, p])
     | _, pc1 =>
-      if pc1.terminal && s1.exits then ((step s1 p).getD s1, [p, p]) else (s1, [p])
+      if pc1.terminal && s1.exits then ((stepAny s1 p).getD s1, [p, p]) else (s1, [p])
 
 /-- all maximal interleavings of the acquire phases (depth-first, process order), as reversed schedules -/
 def enumerate (glue full : Bool) : Nat → State → List Nat → List (List Nat)
   | 0, _, acc => [acc]
   | fuel + 1, s, acc =>
-    let ready := (List.range s.n).filter (if full then running s else acquiring s)
+    let ready := (List.range s.n).filter (fun p => (if full then running s p else acquiring s p) && (stepAny s p).isSome)
     if ready.isEmpty then [acc]
     else ready.flatMap (fun p =>
       let (s', did) := unit glue s p
@@ -396,14 +412,14 @@ def showOutcomeWit (s : State) (p : Nat) : String :=
   | _ => "model-stuck"
 
 def acquireAlone (s : State) (p : Nat) : State :=
-  (List.replicate 8 p).foldl (fun st p => if st.pc p == .holding then st else (step st p).getD st) s
+  (List.replicate 12 p).foldl (fun st p => if st.pc p == .holding then st else (stepAny st p).getD st) s
 
 def goneOrPresent (s : State) : String := if s.cell.isNone then "gone" else "present"
 
 def lockwit (debug : Bool) : String → String
   | "double_acquire" =>
     let s1 := acquireAlone (src (initHeld 2 seqNow debug false seqNow)) 1
-    let s2 := runP s1 [0, 0, 0]
+    let s2 := runP s1 [0, 0, 0, 0, 0]
     s!"second={showOutcomeWit s1 1} file-after-drop={goneOrPresent s2}"
   | "stale_live_evicted" =>
     let s1 := acquireAlone (src (initHeld 2 seqNow debug false (seqNow - 301))) 1
@@ -416,7 +432,7 @@ def lockwit (debug : Bool) : String → String
     let s1 := acquireAlone (src (initHeld 3 seqNow debug false (seqNow - 301))) 1
     match s1.pc 1 with
     | .holding =>
-      let s2 := runP s1 [0, 0, 0]
+      let s2 := runP s1 [0, 0, 0, 0, 0]
       let s3 := acquireAlone s2 2
       s!"second=acquired file-after-first-drop={goneOrPresent s2} third={showOutcomeWit s3 2}"
     | _ => s!"second={showOutcomeWit s1 1} holders={countHolding s1}"
